@@ -17,7 +17,7 @@ def supported (e : Bytes) : Bool := e == gzipLit || e == brLit || e.isEmpty
 /-- Pass-through: a response marked to be skipped, a non-HTML response, or a response in an encoding the
     proxy does not understand is returned exactly as it came (body bytes, Content-Length, every modelled header). -/
 theorem C20_passthrough (env : Env) (r : Resp)
-    (h : r.skipModify = trueLit ∨ List.isPrefixOf textHtml r.contentType = false ∨ supported r.contentEncoding = false) :
+    (h : r.skipModify = trueLit ∨ isHtml r.contentType = false ∨ supported r.contentEncoding = false) :
     modify env r = .resp r := by
   unfold Proxy.modify
   rcases h with h | h | h
@@ -25,7 +25,7 @@ theorem C20_passthrough (env : Env) (r : Resp)
   · by_cases hs : r.skipModify == trueLit <;> simp [hs, h]
   · by_cases hs : r.skipModify == trueLit
     · simp [hs]
-    · by_cases hc : List.isPrefixOf textHtml r.contentType
+    · by_cases hc : isHtml r.contentType
       · simp only [supported, Bool.or_eq_false_iff] at h
         obtain ⟨⟨h1, h2⟩, h3⟩ := h
         simp [hs, hc, h1, h2, h3]
@@ -46,7 +46,7 @@ def codecOf (env : Env) (e : Bytes) : (Bytes → Option Bytes) × (Bytes → Byt
     rewrite fails), Content-Length equals the bytes sent, and the encoding header, content type and CSP are
     untouched — provided only that the codec round-trips (`dec (enc x) = some x`). -/
 theorem C20_html (env : Env) (r : Resp) (doc : Bytes)
-    (hs : r.skipModify ≠ trueLit) (ht : List.isPrefixOf textHtml r.contentType = true)
+    (hs : r.skipModify ≠ trueLit) (ht : isHtml r.contentType = true)
     (he : supported r.contentEncoding = true)
     (hd : (codecOf env r.contentEncoding).1 r.body = some doc)
     (law : ∀ x, (codecOf env r.contentEncoding).1 ((codecOf env r.contentEncoding).2 x) = some x) :
